@@ -202,6 +202,14 @@ func (t *tr) store(heaps map[string]string, addr string, ty types.Type, vals []s
 	}
 }
 
+// freshVsHeap: a new object's reference occurs in no memory cell that exists when it is allocated.
+func (t *tr) freshVsHeap(R, r string, heaps map[string]string) {
+	hl, hs, hi := t.H(heaps, "H_loc"), t.H(heaps, "H_slice"), t.H(heaps, "H_iface")
+	t.assume(R, fmt.Sprintf("(forall ((ty Int) (o Int) (c Int)) (! (distinct (lref (select (select (select %s ty) o) c)) %s) :pattern ((select (select (select %s ty) o) c))))", hl, r, hl))
+	t.assume(R, fmt.Sprintf("(forall ((ty Int) (o Int) (c Int)) (! (distinct (sref (select (select (select %s ty) o) c)) %s) :pattern ((select (select (select %s ty) o) c))))", hs, r, hs))
+	t.assume(R, fmt.Sprintf("(forall ((ty Int) (o Int) (c Int)) (! (distinct (lref (iloc (select (select (select %s ty) o) c))) %s) :pattern ((select (select (select %s ty) o) c))))", hi, r, hi))
+}
+
 func (t *tr) newRef(R string) string {
 	r := t.fresh("alloc", "Int")
 	t.assume("", fmt.Sprintf("(and (> %s 0) (not (existed %s)))", r, r))
@@ -283,6 +291,7 @@ func (t *tr) block(b *ssa.BasicBlock, heaps map[string]string) {
 		case *ssa.Alloc:
 			elem := x.Type().(*types.Pointer).Elem()
 			r := t.newRef(R)
+			t.freshVsHeap(R, r, heaps)
 			t.allocs = append(t.allocs, allocInfo{r, x})
 			tag := t.eng.tag(elem)
 			lv := leaves(elem)
@@ -361,6 +370,7 @@ func (t *tr) block(b *ssa.BasicBlock, heaps map[string]string) {
 			t.slice(x, R)
 		case *ssa.MakeSlice:
 			r := t.newRef(R)
+			t.freshVsHeap(R, r, heaps)
 			t.allocs = append(t.allocs, allocInfo{r, x})
 			ln, cp := t.v(x.Len), t.v(x.Cap)
 			t.oblige("safe", t.nameAt("makeslice", x.Pos(), pickCall), R, fmt.Sprintf("(and (<= 0 %s) (<= %s %s) (<= %s 72057594037927936))", ln, ln, cp, cp), x.Pos())
@@ -673,12 +683,17 @@ func (t *tr) globalFacts(g *ssa.Global, term, ls string) {
 	if t.eng.globalsWritten[key] {
 		return
 	}
-	// never reassigned outside init: its value is a fixed constant for the whole run
+	c := t.globalConst(key, ls, isSentinelError(g))
+	t.assume("", fmt.Sprintf("(= %s %s)", term, c))
+}
+
+// globalConst: the fixed value of a package-level variable that is never reassigned outside init.
+func (t *tr) globalConst(key, ls string, sentinel bool) string {
 	c := "gval_" + sanitize(key)
 	if _, done := t.heapSorts["@"+c]; !done {
 		t.heapSorts["@"+c] = "x"
 		fmt.Fprintf(&t.decls, "(declare-const %s %s)\n", c, smtSort(ls))
-		if t.eng.specs.Globals[key] == "nonnil" || isSentinelError(g) {
+		if t.eng.specs.Globals[key] == "nonnil" || sentinel {
 			switch ls {
 			case "iface":
 				fmt.Fprintf(&t.decls, "(assert (not (= %s niliface)))\n", c)
@@ -692,7 +707,7 @@ func (t *tr) globalFacts(g *ssa.Global, term, ls string) {
 			fmt.Fprintf(&t.decls, "(assert (= (iint %s) %d))\n(assert (= (ityp %s) %d))\n", c, id, c, t.eng.tag(sentinelType))
 		}
 	}
-	t.assume("", fmt.Sprintf("(= %s %s)", term, c))
+	return c
 }
 
 var sentinelType = types.NewNamed(types.NewTypeName(token.NoPos, nil, "sentinel-error", nil), types.Typ[types.Int], nil)
@@ -997,6 +1012,7 @@ func (t *tr) convert(x *ssa.Convert, R string, heaps map[string]string) {
 	case sl == "str" && dl == "slice":
 		// []byte(s): fresh object whose cells are the string's bytes
 		r := t.newRef(R)
+		t.freshVsHeap(R, r, heaps)
 		t.allocs = append(t.allocs, allocInfo{r, x})
 		s := t.v(x.X)
 		tag := t.eng.sliceTag(dst)
@@ -1161,6 +1177,31 @@ func (t *tr) ret(x *ssa.Return, b *ssa.BasicBlock, R string, heaps map[string]st
 	}
 	env := t.ownEnv(res)
 	idx := len(t.returns)
+	// ghost entries of objects this function allocated are defined here (specification-only state of a fresh object)
+	for _, gi := range t.own.GhostInit {
+		g := t.eng.specs.Ghosts[gi.Ghost]
+		if g == nil || len(g.Keys) != 1 || g.Keys[0] != "ref" {
+			t.fatalf("ghostinit %s: needs a ghost with one ref key", gi.Ghost)
+			continue
+		}
+		c := &evalCtx{t: t, env: env, cur: heaps, old: t.oldHeaps}
+		var key, val string
+		func() {
+			defer func() {
+				if r := recover(); r != nil {
+					t.fatalf("ghostinit %s: %v", gi.Src, r)
+				}
+			}()
+			key = c.ghostKey("ref", c.eval(gi.Key))
+			val = c.coerce(c.eval(gi.Val), g.Val)
+		}()
+		if key == "" {
+			continue
+		}
+		t.oblige("ensures", fmt.Sprintf("ghostinit/%s@return[%d]", gi.Ghost, idx), R, fmt.Sprintf("(or (= %s 0) (not (existed %s)))", key, key), x.Pos())
+		h := "G_" + gi.Ghost
+		t.setHeap(heaps, h, fmt.Sprintf("(ite (and %s (not (= %s 0))) (store %s %s %s) %s)", R, key, t.H(heaps, h), key, val, t.H(heaps, h)))
+	}
 	for _, e := range t.own.Ensures {
 		term, err := t.evalGoal(e.Expr, env, heaps, t.oldHeaps)
 		if err != nil {
